@@ -24,8 +24,8 @@ Record dcfg := { has_cond : bool;      (* _condition != nullptr *)
                  holds : bool }.       (* the condition's value equals _establish_value *)
 
 Inductive apc := A0 | ATgtLoad | ACondLoad | ACondTrig | ATgtTrig | ADone.
-Inductive cpc := C0 | C1 | C2 | CTgtTrig (w : Z) | CFinLoad | CDone.       (* w: the local waiting_num *)
-Inductive tpc := T0 | T1 | TDone.
+Inductive cpc := C0 | C1 | C1b (w : Z) | C2 | CTgtTrig (w : Z) | CFinLoad | CDone.       (* w: the local waiting_num *)
+Inductive tpc := T0 | T1 | T1b (w : Z) | TDone.
 
 Record dst := {
   wn : Z;                    (* GraphDependency::_waiting_num *)
@@ -99,6 +99,9 @@ Definition flag_bad (s : dst) : dst :=
   {| wn := wn s; cready := cready s; tready := tready s; est := est s; drdy := drdy s; notified := notified s;
      ctrig := ctrig s; ttrig := ttrig s; bad := true; pa := ADone; pcn := pcn s; pt := pt s |}.
 
+(* GraphDependency::ready: the decrement comes before check_established() (regenerated `order` target) *)
+Definition ready_shape_ok : bool := ready_dec_before_est =? 1.
+
 (* GraphDependency::activate *)
 Definition step_a (c : dcfg) (s : dst) : option dst :=
   match pa s with
@@ -138,9 +141,14 @@ Definition step_c (c : dcfg) (s : dst) : option dst :=
   if negb (has_cond c) then None else
   match pcn s with
   | C0 => Some (seal_c s)                   (* CAS _closure -> SEALED *)
-  | C1 =>                                   (* fetch_sub(1, acq_rel) - 1 ; check_established *)
+  | C1 =>                                   (* fetch_sub(1, acq_rel) - 1.  _established is written only afterwards, by a
+                                               plain store inside check_established(): its own step, because the target's
+                                               releaser may read _established / _ready-relevant state in between *)
     let w := wn s - dep_ready_dec in
-    let s2 := check_est c (with_wn s w) in
+    if negb ready_shape_ok then Some (with_pc (flag_bad s) CDone)
+    else Some (with_pc (with_wn s w) (C1b w))
+  | C1b w =>                                (* check_established(): reads the condition value, stores _established *)
+    let s2 := check_est c s in
     if est s2 then
       if dep_cond_activates_target w then Some (with_pc s2 (CTgtTrig w))
       else Some (cond_final c s2 w)
@@ -156,12 +164,14 @@ Definition step_c (c : dcfg) (s : dst) : option dst :=
 Definition step_t (c : dcfg) (s : dst) : option dst :=
   match pt s with
   | T0 => Some (seal_t s)
-  | T1 =>
-    let w := wn s - dep_ready_dec in
-    let s1 := with_wn s w in
+  | T1 => let w := wn s - dep_ready_dec in Some (with_pt (with_wn s w) (T1b w))         (* fetch_sub(1, acq_rel) - 1 *)
+  | T1b w =>
     if dep_ready_final w 1 then
-      let s2 := check_est c s1 in Some (with_pt (notify c s2 (est s2)) TDone)     (* _ready = check_established() *)
-    else Some (with_pt s1 TDone)
+      (* _ready = check_established()  (re-evaluates the condition data)  |  _ready = established()  (the cached flag,
+         possibly not yet stored by the condition's releaser): which one is regenerated from the source *)
+      let s2 := if ready_final_reeval =? 1 then check_est c s else s in
+      Some (with_pt (notify c s2 (est s2)) TDone)
+    else Some (with_pt s TDone)
   | TDone => None
   end.
 
@@ -199,10 +209,11 @@ Definition cpc_eqb (a b : cpc) : bool :=
   match a, b with
   | C0, C0 | C1, C1 | C2, C2 | CFinLoad, CFinLoad | CDone, CDone => true
   | CTgtTrig x, CTgtTrig y => x =? y
+  | C1b x, C1b y => x =? y
   | _, _ => false
   end.
 Definition tpc_eqb (a b : tpc) : bool :=
-  match a, b with T0, T0 | T1, T1 | TDone, TDone => true | _, _ => false end.
+  match a, b with T0, T0 | T1, T1 | TDone, TDone => true | T1b x, T1b y => x =? y | _, _ => false end.
 Definition dst_eqb (a b : dst) : bool :=
   (wn a =? wn b) && Bool.eqb (cready a) (cready b) && Bool.eqb (tready a) (tready b) && Bool.eqb (est a) (est b) &&
   Bool.eqb (drdy a) (drdy b) && (notified a =? notified b)%nat && (ctrig a =? ctrig b)%nat && (ttrig a =? ttrig b)%nat &&
